@@ -334,6 +334,9 @@ def gen_values(sort_src, rng, p_hint, budget):
                     if rep == 2:     # tiny noise variances
                         var = var * 1e-10
                     out.append(LGANM(W, mu, var))
+                    if rep == 1:     # a model constructed with a seed: later unseeded calls must still follow the global generator
+                        out.append(LGANM(W, mu, var, random_state=0))
+                        out.append(LGANM(W, (0, 1), (1, 2), random_state=5))
             return out
         if cls.endswith('BayesianNetwork'):
             import sempler.semi as semi
@@ -508,6 +511,8 @@ def _hashable(k):
 
 
 def replay(ctx, wit):
+    for q0 in wit.get('mixed_after') or []:       # witness found in the cross-function pass: re-create the history first
+        search(ctx, q0, seed=0, budget=20, max_calls=int(os.environ.get('VK_MIXED_CALLS', '400')), stop_on_first=False)
     kwargs = {k: _unjson(v) for k, v in wit['inputs'].items()}
     ghost = {k: _unjson(v) for k, v in (wit.get('ghost') or {}).items()}
     c = ctx.db.get(wit['function'])
@@ -536,6 +541,18 @@ def main(argv):
         seed = int(argv[1])
         for q in argv[2:]:
             stats, wit = search(ctx, q, seed=seed, budget=int(os.environ.get('VK_BUDGET', '300')))
+            out[q] = {'stats': stats, 'witness': wit}
+        print(json.dumps(out))
+    elif argv[0] == 'mixed':
+        # history across functions: all functions of the property once more in ONE process, in reverse order, few calls each -
+        # state shared between functions (module-level caches, memo tables) shows up as a contract failure of the later one
+        out = {}
+        seed = int(argv[1])
+        for q in reversed(argv[2:]):
+            stats, wit = search(ctx, q, seed=seed, budget=20, max_calls=int(os.environ.get('VK_MIXED_CALLS', '400')))
+            if wit is not None:
+                wit['observed'] = wit.get('observed', '') + ' (in one process after the other functions of the property had been called)'
+                wit['mixed_after'] = [x for x in reversed(argv[2:])][:list(reversed(argv[2:])).index(q)]
             out[q] = {'stats': stats, 'witness': wit}
         print(json.dumps(out))
     elif argv[0] == 'replay':
